@@ -61,6 +61,20 @@ Theorem C07_engine_independent :
 Proof. exact engine_independent. Qed.
 Print Assumptions C07_engine_independent.
 
+(* ... and for a whole process: any number of engine instances, any history of requests addressed to
+   any of them (irs, irs'), in two processes p, p' - a request to an engine holding the same templates
+   gets the same answer.  (That nothing but the engines is state of the process - no package-level
+   variable, pool or cache written by a render - is what the correspondence check samples.) *)
+Theorem C07_process_history_independent :
+  forall (tpl exec_state : Type) (new_exec : tpl -> gdata -> exec_state)
+         (run_exec : exec_state -> exec_state) (output : exec_state -> option bytes)
+         (p p' : process tpl) (irs irs' : list (nat * request)) (i j : nat) (r : request),
+    option_map (templates tpl) (nth_error p i) = option_map (templates tpl) (nth_error p' j) ->
+    presp tpl (prun tpl exec_state new_exec run_exec output p (irs ++ [(i, r)]))
+    = presp tpl (prun tpl exec_state new_exec run_exec output p' (irs' ++ [(j, r)])).
+Proof. exact process_history_independent. Qed.
+Print Assumptions C07_process_history_independent.
+
 (* (c) For ALL stores of caller data, roots, conversion fuel and ALL sequences of template operations
    (convert, member, index, push, unshift, pop, shift, sort, splice, slice, x.k = v, Object.assign,
    literals, new arrays/objects): the caller's cells are afterwards what they were before. *)
